@@ -70,7 +70,7 @@ def corrupt_token_list(toks: list[surface.Tok], r: random.Random) -> tuple[list[
             if t in STMT_WORDS:
                 toks[i] = _tok(r.choice(STMT_WORDS), toks[i])
             elif re.fullmatch(r"-?[0-9]+", t):
-                toks[i] = _tok(r.choice(["-1", "0", "1", "2", "255", "-0", "007", "0x10", "0b1", "65536", "1.5", ".5", "-2.25", "99999", "3000000000", "K", "$X"]), toks[i])
+                toks[i] = _tok(r.choice(["-1", "0", "1", "2", "255", "-0", "007", "0x10", "0b1", "65536", "1.5", ".5", "-2.25", "99999", "K", "$X"]), toks[i])
             elif re.fullmatch(r"[A-Za-z_][A-Za-z0-9_]*", t) and t not in KEYWORDS:
                 toks[i] = _tok(r.choice(["Wait", "Jump", "Call", "Return", "End", "Hold", "Branch", "BranchBit", "Switch", "Case", "CaseText", "lives", "object", "performer",
                                          "Null", "flag_Set", "message_SwitchTalk", "x", "K", "actor", "Destroy", r.choice(toks).text]), toks[i])
